@@ -12,7 +12,11 @@ General facts of the engine model, local to `_run_recurrent_subgraph` / `_run_no
   `RecurrentSubgraphDoesNotHaveResultError` (contained inside a one-of scope) (`C11_exhausted`);
 * a `Recurrent` result never unlocks the consumers: only the node's own condition and event are signalled
   (`C11_recurrent_result_does_not_unlock_consumers`), and `ready` refuses a `Recurrent` source (C03);
-* nodes are re-executed only through `hide_last_execution` (C04).
+* nodes are re-executed only through `hide_last_execution` (C04);
+* a restart forgets the decisions of the switches between start and destination, so their consumers wait for the new
+  decision (`C11_restart_forgets_decisions`, `C11_consumer_waits_for_new_decision`), and the DAG of an iteration is the
+  part of that scope the destination needs through ordinary edges — cases and one-of candidates are run by their
+  switch / one-of, as in the first iteration (`C11_iteration_dag_is_lazy`; demo `demoSwRec`).
 **All programs, all schedules** (`Proofs/RecScope.lean`): in every reachable state a node whose execution was ever
 invalidated belongs to the subgraph `start → dest` of a `RecurrentSubGraph` mark
 (`C11_only_subgraph_nodes_are_invalidated`), so a node outside every recurrent subgraph is executed at most once in a
@@ -21,11 +25,13 @@ run, whoever requests it (`C11_outside_nodes_run_at_most_once`) — "nodes outsi
 namespace MLPE.Eng
 open MLPE
 
-/-- iteration `k < max_iterations`: store the data for the start node, then run the subgraph DAG inline -/
+/-- iteration `k < max_iterations`: store the data for the start node, invalidate everything between start and
+destination (results, processed marks, switch decisions), then run the subgraph DAG inline -/
 theorem C11_iteration_runs_subgraph (c : Ctx) (s : St) (obs : List Obs) (d : DagRef) (n start : Node) (g : DagRef)
     (k : Nat) (data : Val) (below : List Frame) (hk : k < ((c.P.g.attr n).maxIter).getD 0) :
     recIter c s obs d n start g k (.recur data) below =
-      dagInit c (s.setAdditional start data) obs g (.recIterRet d n start g k :: below) := by
+      dagInit c ((s.setAdditional start data).hide (recScopeNodes c.P start n d.isOneof)) obs g
+        (.recIterRet d n start g k :: below) := by
   simp [recIter, hk]
 
 /-- no iteration beyond the bound: with `k ≥ max_iterations` the subgraph is not run again -/
@@ -184,5 +190,130 @@ example : ∃ s, runChoicesC11 demoRec init demoRecRun = some s ∧ Reach demoRe
     C11_outside_nodes_run_at_most_once demoRec s hr 0 (hout 0 (Or.inl rfl)) hord, hout 3 (Or.inr rfl),
     C11_outside_nodes_run_at_most_once demoRec s hr 3 (hout 3 (Or.inr rfl)) hord, hval⟩
 
+
+/-! ### switches and one-ofs inside the restarted scope (repo fix 12d4978) -/
+
+/-- **a restart forgets the decisions of the switches it invalidates** (repo fix 12d4978) — and only those -/
+theorem C11_restart_forgets_decisions (s : St) (ns : List Node) (n : Node) :
+    (s.hide ns).sw n = if ns.contains n then none else s.sw n := rfl
+
+/-- a hidden node has no visible result: whoever waits for it is not ready -/
+theorem C11_hidden_source_blocks (P : Program) (s : St) (ns : List Node) (d : DagRef) (c p : Node)
+    (hp : p ∈ predsFor P (s.hide ns) d c) (hn : p ∈ ns) : ready P (s.hide ns) d c = false := by
+  cases hr : ready P (s.hide ns) d c with
+  | false => rfl
+  | true =>
+    unfold ready at hr
+    simp only [List.all_eq_true, Bool.and_eq_true] at hr
+    have := (hr p hp).1
+    simp only [St.exists, St.hide, Bool.and_eq_true, Bool.not_eq_true'] at this
+    have h2 := this.2
+    simp at h2
+    exact absurd hn h2.1
+
+/-- **the consumer of a switch inside the restarted scope waits for the new decision**: after the restart the switch
+stands for itself among the consumer's sources again (not for the case selected in the previous iteration), and it has no
+visible result, so the consumer is not ready — until `_run_switch` records a decision and wakes it -/
+theorem C11_consumer_waits_for_new_decision (P : Program) (s : St) (ns : List Node) (d : DagRef) (c S : Node)
+    (hS : P.g.isSwitch S = true) (hin : S ∈ ns) (hpre : S ∈ P.g.preds c)
+    (hc1 : P.g.isSwitch c = false) (hc2 : P.g.isOneofHead c = false) (hd : d.isRec = true → S ∈ d.nodes) :
+    ready P (s.hide ns) d c = false := by
+  apply C11_hidden_source_blocks P s ns d c S _ hin
+  unfold predsFor
+  simp only [hc1, hc2, Bool.false_and, Bool.false_or, Bool.false_eq_true, if_false, Bool.not_false,
+    Bool.and_true]
+  have hsw : (s.hide ns).sw S = none := by
+    rw [C11_restart_forgets_decisions]
+    have : ns.contains S = true := by simpa using hin
+    rw [this]; rfl
+  apply List.mem_map.mpr
+  refine ⟨S, ?_, ?_⟩
+  · split
+    · next hrec =>
+      simp only [List.mem_filter, List.contains_iff_mem]
+      exact ⟨hpre, hd hrec⟩
+    · exact hpre
+  · simp only [hS, if_true, hsw]
+
+/-- **the DAG of an iteration is lazy** (repo fix 12d4978): it consists of nodes of the restarted scope that the
+destination needs through ordinary edges — a case node or a one-of candidate is in it only if somebody reads it as an
+ordinary dependency as well; the flags and the destination are those of the scope -/
+theorem C11_iteration_dag_is_lazy (P : Program) (s : St) (scope g : DagRef) (dst : Node)
+    (h : recLaunch P s scope dst = some g) :
+    (∃ r, reducedRef P s P.g.input dst false false false = some r ∧
+        ∀ m, m ∈ g.nodes ↔ (m ∈ scope.nodes ∧ m ∈ r.nodes)) ∧
+      g.isRec = scope.isRec ∧ g.isOneof = scope.isOneof ∧ g.dest = scope.dest := by
+  unfold recLaunch at h
+  split at h
+  · cases h
+  · next r hr =>
+    cases h
+    refine ⟨⟨r, hr, ?_⟩, rfl, rfl, rfl⟩
+    intro m
+    simp [List.mem_filter]
+
+/-- a switch inside a recurrent subgraph: `1 → 2 (decision) → 8 (switch, cases 3 | 4) → 5 → 6`, the destination `6` asks
+once for another iteration of `1 → 6`; the decision is `l0` in the first iteration and `l1` in the second; the cases `3`,
+`4` lie outside the subgraph -/
+def demoSwRec : Program :=
+  { g := { nodes := [0, 1, 2, 3, 4, 5, 6, 7, 8],
+           edges := [{ u := 0, v := 1, kwarg := some "a" }, { u := 1, v := 2, kwarg := some "a" }, { u := 0, v := 3 },
+                     { u := 0, v := 4 }, { u := 8, v := 5, kwarg := some "a" }, { u := 5, v := 6, kwarg := some "a" },
+                     { u := 6, v := 7, kwarg := some "a" }, { u := 2, v := 8, isSwitch := true },
+                     { u := 3, v := 8, case := some "l0" }, { u := 4, v := 8, case := some "l1" }],
+           attr := fun n => if n = 8 then { isSwitch := true, inMap := false }
+                            else if n = 6 then { startNode := some 1, maxIter := some 2 } else {},
+           input := 0, output := 7, order := [6, 7, 5, 8, 2, 3, 4, 0, 1] },
+    cfg := fun _ => {},
+    body := fun n _ inv _ =>
+      if n = 2 then (if inv = 0 then .ret (.str "l0") else .ret (.str "l1"))
+      else if n = 6 ∧ inv = 0 then .ret (.recur (.str "d")) else .ret (.int n),
+    dflt := fun _ _ => .none,
+    inputKw := [] }
+
+/-- the schedule the real engine follows on this pipeline (FIFO), as recorded by the harness -/
+def demoSwRecRun : List Choice :=
+  [.run 0 [] 0, .run 1 [0, 1, 2, 8, 5, 6, 7] 0, .run 2 [] 0, .gate 0 0 1, .run 2 [] 0, .run 1 [] 0, .run 0 [] 0, .run 3 [] 0, .gate 1 0 1, .run 3 [] 0, .run 1 [] 0, .run 0 [] 0, .run 4 [] 0, .gate 2 0 1, .run 4 [] 0, .run 1 [] 0, .run 0 [] 0, .run 5 [3] 0, .run 6 [] 0, .gate 3 0 1, .run 6 [] 0, .run 1 [] 0, .run 0 [] 0, .run 5 [] 0, .run 7 [] 0, .gate 5 0 1, .run 7 [] 0, .run 1 [] 0, .run 0 [] 0, .run 8 [] 0, .gate 6 0 1, .run 8 [] 0, .run 9 [1, 2, 8, 5, 6] 0, .run 10 [] 0, .gate 1 1 1, .run 10 [] 0, .run 9 [] 0, .run 0 [] 0, .run 11 [] 0, .gate 2 1 1, .run 11 [] 0, .run 9 [] 0, .run 0 [] 0, .run 12 [4] 0, .run 13 [] 0, .gate 4 0 1, .run 13 [] 0, .run 9 [] 0, .run 0 [] 0, .run 12 [] 0, .run 14 [] 0, .gate 5 1 1, .run 14 [] 0, .run 9 [] 0, .run 0 [] 0, .run 15 [] 0, .gate 6 1 1, .run 15 [] 0, .run 1 [] 0, .run 0 [] 0, .run 9 [] 0, .run 16 [] 0, .gate 7 0 1, .run 16 [] 0, .run 0 [] 0, .run 1 [] 0]
+
+
+
+/-- non-vacuity of the repaired behaviour, on the schedule of the real engine: **after the restart** (33 steps) the
+decision of the switch is forgotten, its consumer `5` is not ready in the DAG of the iteration, the cases — outside the
+scope — keep their results; **at the end** the second decision `l1 ↦ 4` is recorded, each case has been executed exactly
+once (the DAG of the iteration did not run them), the consumer twice, and the run returned a value -/
+example : (∃ s, runChoicesC11 demoSwRec init (demoSwRecRun.take 33) = some s ∧ Reach demoSwRec s ∧ s.sw 8 = none ∧
+      s.hideCount 8 = 1 ∧ s.hideCount 3 = 0 ∧
+      ready demoSwRec s { source := 1, dest := some 6, nodes := [1, 2, 8, 5, 6], isRec := true } 5 = false) ∧
+    (∃ s, runChoicesC11 demoSwRec init demoSwRecRun = some s ∧ Reach demoSwRec s ∧ s.badOrd = false ∧
+      s.sw 8 = some ("l1", 4) ∧ s.invCount 3 = 1 ∧ s.invCount 4 = 1 ∧ s.invCount 5 = 2 ∧
+      ∃ v, s.outcome = some (.value v)) := by
+  constructor
+  · have h : (runChoicesC11 demoSwRec init (demoSwRecRun.take 33)).isSome = true := by decide +kernel
+    obtain ⟨s, hs⟩ := Option.isSome_iff_exists.mp h
+    have hr := reach_of_runC11 _ init s .init hs
+    have fact : ∀ (f : St → Bool), ((runChoicesC11 demoSwRec init (demoSwRecRun.take 33)).map f) = some true →
+        f s = true := by
+      intro f hf; rw [hs] at hf; simpa using hf
+    refine ⟨s, hs, hr, ?_, ?_, ?_, ?_⟩
+    · simpa using fact (fun s => decide (s.sw 8 = none)) (by decide +kernel)
+    · simpa using fact (fun s => decide (s.hideCount 8 = 1)) (by decide +kernel)
+    · simpa using fact (fun s => decide (s.hideCount 3 = 0)) (by decide +kernel)
+    · simpa using fact (fun s => !ready demoSwRec s
+        { source := 1, dest := some 6, nodes := [1, 2, 8, 5, 6], isRec := true } 5) (by decide +kernel)
+  · have h : (runChoicesC11 demoSwRec init demoSwRecRun).isSome = true := by decide +kernel
+    obtain ⟨s, hs⟩ := Option.isSome_iff_exists.mp h
+    have hr := reach_of_runC11 _ init s .init hs
+    have fact : ∀ (f : St → Bool), ((runChoicesC11 demoSwRec init demoSwRecRun).map f) = some true → f s = true := by
+      intro f hf; rw [hs] at hf; simpa using hf
+    refine ⟨s, hs, hr, ?_, ?_, ?_, ?_, ?_, ?_⟩
+    · simpa using fact (fun s => !s.badOrd) (by decide +kernel)
+    · simpa using fact (fun s => decide (s.sw 8 = some ("l1", 4))) (by decide +kernel)
+    · simpa using fact (fun s => decide (s.invCount 3 = 1)) (by decide +kernel)
+    · simpa using fact (fun s => decide (s.invCount 4 = 1)) (by decide +kernel)
+    · simpa using fact (fun s => decide (s.invCount 5 = 2)) (by decide +kernel)
+    · have := fact (fun s => match s.outcome with | some (.value _) => true | _ => false) (by decide +kernel)
+      cases ho : s.outcome with
+      | none => simp [ho] at this
+      | some o => cases o <;> simp [ho] at this; exact ⟨_, rfl⟩
 
 end MLPE.Eng
